@@ -285,7 +285,11 @@ func c04Run(c *core.Ctx) {
 
 func synthLeafCount(c *core.Ctx) uint64 {
 	r := c.Rng
-	switch r.Intn(6) {
+	switch r.Intn(8) {
+	case 6: // more than 2^63 leaves: 64 rows, the widest forest a stump value can describe
+		return uint64(1)<<63 | r.Uint64()>>uint(r.Intn(64)) | 1
+	case 7:
+		return ^uint64(0) - uint64(r.Intn(4))
 	case 0:
 		return uint64(1) << uint(r.Intn(64)) // up to 2^63
 	case 1:
@@ -319,12 +323,17 @@ func c04Synth(c *core.Ctx) {
 	stump := u.Stump{Roots: roots, NumLeaves: n}
 	g := newHostileGen(c.Rng, nil, n, roots, true, tag)
 	full := c.Index%2 == 0
-	mp := u.NewMapPollardFromRoots(cloneHashes(roots), n, full)
 	kind := "mappartial"
 	if full {
 		kind = "mapfull"
 	}
-	in := &Inst{Cfg: InstCfg{Kind: kind, Rows: 63}, Name: kind + "/fromroots", MP: &mp, U: &mp, Rem: map[Hash]bool{}}
+	var in *Inst
+	if n <= uint64(1)<<63 { // a map forest allocates at most 63 rows
+		mp := u.NewMapPollardFromRoots(cloneHashes(roots), n, full)
+		in = &Inst{Cfg: InstCfg{Kind: kind, Rows: 63}, Name: kind + "/fromroots", MP: &mp, U: &mp, Rem: map[Hash]bool{}}
+	} else {
+		c.Count("synthetic_stumps_with_64_rows", 1)
+	}
 	c.Max("max_synthetic_rows", int(rm.Rows(n)))
 	for i := 0; i < c04ClaimsPerState; i++ {
 		cl := g.random()
@@ -340,8 +349,10 @@ func c04Synth(c *core.Ctx) {
 			}
 		}
 		c04Stump(c, stump, cl, adds, "", scn(nil))
-		cfg := in.Cfg
-		c04Inst(c, in, n, cl, "", scn(&cfg))
+		if in != nil {
+			cfg := in.Cfg
+			c04Inst(c, in, n, cl, "", scn(&cfg))
+		}
 		if len(cl.Targets) > 0 && len(cl.Hashes) == len(cl.Targets) {
 			c.Distinct(core.FP(n, cl.Targets, len(cl.Proof), cl.Kind))
 		}
@@ -377,6 +388,9 @@ func c04Replay(c *core.Ctx, raw json.RawMessage) {
 			}
 		}
 		for _, full := range []bool{true, false} {
+			if s.Synth.NumLeaves > uint64(1)<<63 {
+				break
+			}
 			kind := "mappartial"
 			if full {
 				kind = "mapfull"
